@@ -4,8 +4,11 @@
 // element identity (rule R8); the scope guard is elided (rule R18: unwinding is not modelled here, the
 // guard's closure is verified on its own in unit `guard`).
 
-/// the hash the caller's hasher computes for an element: a function of the element only (lawful Hash)
+/// the hash a LAWFUL hasher computes for an element: a function of the element only
 pub uninterp spec fn elem_hash(id: int) -> u64;
+/// whether the caller's hasher is lawful.  Nothing is assumed about it: an unlawful hasher may answer
+/// anything, differently on every call (C05); only the placement / reachability clauses depend on lawfulness
+pub uninterp spec fn hasher_lawful() -> bool;
 
 #[derive(Clone, Copy)]
 pub struct ElemPtr {
@@ -17,7 +20,7 @@ impl HasherDyn {
     #[verifier::external_body]
     pub fn call(&self, t: &mut RawTableInner, i: usize) -> (r: u64)
         requires i < old(t).nb(),
-        ensures *final(t) == *old(t), r == elem_hash(old(t).elems@[i as int]),
+        ensures *final(t) == *old(t), hasher_lawful() ==> r == elem_hash(old(t).elems@[i as int]),
     { unimplemented!() }
 }
 pub struct DropFn { pub g: Ghost<int> }
